@@ -20,6 +20,11 @@ CHECKS = {
    text="Four default orders of ALL k*64 pairs (up to the cap just below a 57th window move) are run on the real sketch with every single deviation (pairs at the window edges, early zone, late zone, col 63, duplicates) inserted at every listed position (lg_k=4: every 8th/1st position quick/thorough, double deviations on a grid; lg_k 5..8 quick, ..12 + spot 21/26 thorough), and a BFS to depth 4-5 over 12 window-straddling pairs starts from every prefix within 3 coupons of a flavor change or window move. After every step: num_coupons==popcount, hook matrix==model, validate(), offset/flavor from thresholds, columns below first_interesting_column all ones, kxp==exact unset-probability mass, hip==sum k/kxp, duplicates are no-ops.",
    note="Pairs are injected through the add-only hook; model precondition: no new pair at C=ceil(59.375K)-1. kxp/hip are compared with exact 128-bit arithmetic within an f64-rounding error bound.",
    design="3/C05"),
+ "C04": dict(
+   technique="deviation-bounded exhaustive enumeration on 4k-offer runs + explicit-state BFS from pre-resize/pre-rebuild states, real sketch vs offered-hash-set reference (KMV oracle in every state)",
+   text="For every configuration (lg_k 5..8 x 4 resize factors x p in {1,0.5,2^-10} x seeds) five default runs of 4k offers (ascending, descending, alternating, two classes of hashes colliding in the whole probe sequence for every table size, public update of items against the reference hash) are executed on the real sketch with every single deviation {theta-1, theta, 1, duplicate min/max, max+1, trim, reset} at grid positions (double deviations at lg_k 5,6), plus a BFS (depth 4-6) over 13 ops from the empty state and the states just before each resize/rebuild. In every state: iter()=={offered h: 0<h<theta}, no duplicates, theta non-increasing/an offered hash/below initial only after >k hashes, rebuild and trim leave exactly k, estimate==retained/theta (== distinct count in exact mode), is_empty iff never updated, compact(true|false) same entries/emptiness/estimate/theta, <=15/16*2k retained.",
+   note="Hashes are offered through the add-only hook (screened like update); one default run per configuration uses the public update with the reference MurmurHash as the model. BFS merges on (retained set, theta, table size) irrespective of table layout.",
+   design="3/C04"),
 }
 NOT_BUILT = "check not built yet in this session (planned in DESIGN.md section 3); not claimed until it exists"
 def main():
